@@ -95,7 +95,7 @@ def run(F, tier, res):
                             where=F.span_of_call(c))
             if good:
                 ok += 1
-    res.rule('C14.PAIRING', n, 2, 'call sites of the file-header composer %s: guarded by handled != current, followed by handled := current' % [c.split('::')[-1] for c in composers], discharged=ok)
+    res.rule('C14.PAIRING', n, 1, 'call sites of the file-header composer %s: guarded by handled != current, followed by handled := current' % [c.split('::')[-1] for c in composers], discharged=ok)
     # REARM: a write to current_file_pair re-arms the `handled != current` test. Outside the per-section reset (which also clears
     # `handled`), every such write must be followed, on every path to the function's return, by the header decision itself (the
     # comparison, or a call into the generic header writer's decision function); otherwise a header already written for this
@@ -155,7 +155,7 @@ def run(F, tier, res):
                             'for this section is written a second time when the pending-header check next runs', where=F.bodies[q]['mir']['span']['at'])
             else:
                 okr += 1
-    res.rule('C14.REARM', nr, 4, 'writes to current_file_pair: in the per-section reset, or followed on every path by the header decision (deciders: %s)' % sorted(d.split('::')[-1] for d in deciders), discharged=okr)
+    res.rule('C14.REARM', nr, 2, 'writes to current_file_pair: in the per-section reset, or followed on every path by the header decision (deciders: %s)' % sorted(d.split('::')[-1] for d in deciders), discharged=okr)
     # RESET-ORDER (shared with C10): the pending header of the previous section is flushed before the fields it reads are overwritten
     from .c10 import reset_order_rule, reset_rule, find_resetters
     rs_, bd_ = find_resetters(F)
